@@ -73,6 +73,7 @@ class Interp:
         self.values = {}      # return values seen
         self._serials = {}    # id(obj) -> (serial, obj)   (keeps objects alive: ids stay unique)
         self.fault_log = []   # (k, target, seq_at_injection, time, status_before) of injected cancels
+        self.scope_tasks = {}  # scope name -> [task names spawned into it]
         self.samples = []     # per activation boundary: {task: (status, done)} (if sampling is on)
         o = prog.get('objs', {})
         self.flags = [Flag() for _ in range(o.get('flags', 0))]
@@ -114,7 +115,7 @@ class Interp:
         if eid is not None and self.excs.get(eid) is exc:
             return ('prog', eid)
         if isinstance(exc, Concurrent):
-            return ('conc', tuple(self.describe(c) for c in exc.children))
+            return ('conc', tuple(self.describe(c) for c in exc.children), self.serial(exc))
         if isinstance(exc, TaskCancelled):
             subj = None
             for n, t in self.tasks.items():
@@ -126,7 +127,16 @@ class Interp:
         if isinstance(exc, TaskClosed):
             return ('closed',)
         if isinstance(exc, _CoreInterrupt):
-            return ('signal', type(exc).__name__)
+            subj = getattr(exc, 'subject', None)
+            who = None
+            if subj is not None:
+                for n, t in self.tasks.items():
+                    if t is subj:
+                        who = n
+                for n, sc in self.scopes.items():
+                    if sc is subj:
+                        who = n
+            return ('signal', type(exc).__name__, who)
         if isinstance(exc, GeneratorExit):
             return ('genexit',)
         if isinstance(exc, StreamClosed):
@@ -234,7 +244,7 @@ class Interp:
                 return ret
         return None
 
-    def spawn(self, scope, child):
+    def spawn(self, scope, child, scope_name=None):
         kw = {}
         if child.get('after') is not None:
             kw['after'] = num(child['after'])
@@ -251,6 +261,8 @@ class Interp:
         if child['name'] in self.tasks:
             raise InvalidCase('duplicate task name')
         self.tasks[child['name']] = task
+        if scope_name:
+            self.scope_tasks.setdefault(scope_name, []).append(child['name'])
         return task, None
 
     async def _block(self, name, idx, st, scope):
@@ -262,7 +274,7 @@ class Interp:
                     self.scopes[st['name']] = sc
                 self.ev(name, idx, 'enter')
                 for ch in st.get('children', ()):
-                    self.spawn(sc, ch)
+                    self.spawn(sc, ch, st.get('name'))
                 try:
                     await self.steps(name, idx + ('b',), st.get('body', ()))
                 except BaseException as e:
@@ -273,12 +285,18 @@ class Interp:
         except BaseException as e:
             d = self.describe(e)
             self.ev(name, idx, 'leave', d)
-            if catch and d[0] in ('prog', 'conc') or (catch and d[0] == 'other' and
-                                                       isinstance(e, tuple(PRIV_CLASSES.values()))):
+            self._snapshot(name, idx, st)
+            if catch and d[0] in ('prog', 'conc'):
                 return
             raise
         else:
             self.ev(name, idx, 'leave', None)
+            self._snapshot(name, idx, st)
+
+    def _snapshot(self, name, idx, st):
+        if st.get('name'):
+            self.ev(name, idx, 'tasks', {n: (self.tasks[n].status.name, bool(self.tasks[n].done))
+                                         for n in self.scope_tasks.get(st['name'], ())})
 
     async def _step(self, name, idx, st):
         op = st['op']
@@ -304,6 +322,7 @@ class Interp:
             ev(name, idx, 'ok')
         # --- conditions
         elif op == 'set_flag':
+            ev(name, idx, 'set_begin', (st['i'], bool(st['v'])))
             await self.flags[st['i']].set(bool(st['v']))
             ev(name, idx, 'ok')
         elif op == 'tset':
@@ -355,8 +374,8 @@ class Interp:
             sc = self.scopes.get(st['ref'])
             if sc is None:
                 raise InvalidCase('scope %r' % st['ref'])
-            task, state = self.spawn(sc, st['child'])
-            ev(name, idx, 'spawned' if task is not None else 'refused', state)
+            task, state = self.spawn(sc, st['child'], st['ref'])
+            ev(name, idx, 'spawned' if task is not None else 'refused', (st['child']['name'], state))
         elif op == 'return':
             ev(name, idx, 'ok')
             return st['v']
@@ -517,6 +536,40 @@ class Interp:
                 ev(name, idx, 'got_exc', self.describe(e))
             else:
                 ev(name, idx, 'ok', cnt)
+        elif op == 'finally':
+            try:
+                await self.steps(name, idx + ('b',), st.get('body', ()))
+            finally:
+                # synchronous clean-up only (it also runs on forceful close)
+                for j, fs in enumerate(st.get('final', ())):
+                    fidx = idx + ('f', j)
+                    if fs['op'] == 'spawn_into':
+                        sc = self.scopes.get(fs['ref'])
+                        if sc is None:
+                            ev(name, fidx, 'noscope')
+                            continue
+                        task, state = self.spawn(sc, fs['child'], fs['ref'])
+                        ev(name, fidx, 'spawned' if task is not None else 'refused',
+                           (fs['child']['name'], state))
+                    elif fs['op'] == 'cancel':
+                        t = self.tasks.get(fs['ref'])
+                        if t is not None:
+                            ev(name, fidx, 'cancel_call', (fs['ref'], t.status.name, tuple(fs.get('token', ()))))
+                            t.cancel(*fs.get('token', ()))
+                    else:
+                        ev(name, fidx, 'mark', fs.get('v'))
+        elif op == 'cleanup':
+            # body with *asynchronous* clean-up on interruption (a payload that suspends while reacting
+            # to a cancellation); never awaits on forceful close
+            try:
+                await self.steps(name, idx + ('b',), st.get('body', ()))
+            except GeneratorExit:
+                raise
+            except BaseException as e:
+                ev(name, idx, 'cleanup_begin', self.describe(e))
+                await self.steps(name, idx + ('f',), st.get('final', ()))
+                ev(name, idx, 'cleanup_end')
+                raise
         elif op == 'now':
             ev(name, idx, 'now')
         elif op == 'mark':
@@ -578,6 +631,7 @@ def execute(prog, probe=None, wall=60, faults=(), sample=False):
                                  till=None if till is None else num(till),
                                  probe=probe, wall=wall)
     it.end_seq = it.seq
+    it.roots_alive = roots
     if sample:
         it.samples.append((p.k, None, it.seq, {n: (t.status.name, bool(t.done)) for n, t in it.tasks.items()}))
     for r in roots:
@@ -585,4 +639,15 @@ def execute(prog, probe=None, wall=60, faults=(), sample=False):
             r.close()
         except BaseException:
             pass
+    # Abandoned coroutines of a run must never be finalised by the cyclic GC *during a later
+    # run* (their clean-up would schedule into that run's loop).  Automatic GC is therefore
+    # disabled in harness processes (below); garbage is collected here, between runs.
+    _RUNS[0] += 1
+    if _RUNS[0] % 400 == 0:
+        gc.collect()
     return it, outcome, exc, p
+
+
+import gc  # noqa: E402
+gc.disable()
+_RUNS = [0]
